@@ -667,6 +667,30 @@ static void build_expr(WorkList *list, ASTNode *expr, Environment *env);
 static void build_stmt(WorkList *list, ScopeStack *scopes, ASTNode *stmt, int indent, Environment *env,
                        FunctionTypeRegistry *fn_registry);
 
+/* While an arm of a match is emitted its binding is registered the way the type checker bound
+ * it ("Union.Variant", located at the match): the symbol table keeps the bindings of ALL arms and of
+ * earlier matches, so a lookup by name alone finds the last arm's binding (wrong variant when two
+ * arms use the same name), and an unregistered binding does not hide a top-level constant of the
+ * same name.  Returns the symbol count to restore after the arm. */
+static int match_binding_enter(Environment *env, const char *binding, const char *union_base,
+                               const char *variant, int line, int column) {
+    int start = env->symbol_count;
+    if (!binding || !binding[0] || strcmp(binding, "_") == 0 || !union_base || !variant) return start;
+    Symbol *checked = env_get_var_visible_at(env, binding, line, column);
+    TypeInfo *ti = (checked && checked->type == TYPE_STRUCT) ? checked->type_info : NULL;
+    env_define_var_with_type_info(env, binding, TYPE_STRUCT, TYPE_UNKNOWN, ti, false, create_void());
+    Symbol *mine = &env->symbols[env->symbol_count - 1];
+    char *name = malloc(strlen(union_base) + strlen(variant) + 2);
+    if (name) {
+        sprintf(name, "%s.%s", union_base, variant);
+        mine->struct_type_name = name;     /* replaces whatever an older same-named symbol lent it */
+    }
+    mine->def_line = line;
+    mine->def_column = column;
+    return start;
+}
+
+
 static bool is_generic_list_runtime_fn(const char *name) {
     if (!name) return false;
     if (strncmp(name, "list_", 5) != 0) return false;
@@ -707,7 +731,8 @@ static void build_expr(WorkList *list, ASTNode *expr, Environment *env) {
             break;
             
         case AST_IDENTIFIER: {
-            /* Check for constant inlining */
+            /* Check for constant inlining (parameters, locals, loop variables and match bindings
+             * are registered without a value as they are emitted, so they hide a constant) */
             Symbol *sym = env_get_var(env, expr->as.identifier);
             if (sym && !sym->is_mut) {
                 if (sym->value.type == VAL_INT) {
@@ -2600,6 +2625,8 @@ static void build_expr(WorkList *list, ASTNode *expr, Environment *env) {
                     emit_literal(list, "; ");
                 }
                 
+                int arm_scope_start = match_binding_enter(env, binding_name, base_union_name, variant_name, expr->line, expr->column);
+
                 /* Handle arm body */
                 if (arm_body) {
                     if (arm_body->type == AST_BLOCK) {
@@ -2621,6 +2648,7 @@ static void build_expr(WorkList *list, ASTNode *expr, Environment *env) {
                     }
                 }
                 
+                env->symbol_count = arm_scope_start;
                 emit_literal(list, "break; } ");
             }
             
@@ -2796,6 +2824,7 @@ static void build_stmt(WorkList *list, ScopeStack *scopes, ASTNode *stmt, int in
                     emit_literal(list, ";\n");
                 }
 
+                int arm_scope_start = match_binding_enter(env, binding_name, base_union_name, variant_name, stmt->line, stmt->column);
                 if (arm_body) {
                     if (arm_body->type == AST_BLOCK) {
                         for (int j = 0; j < arm_body->as.block.count; j++) {
@@ -2807,6 +2836,7 @@ static void build_stmt(WorkList *list, ScopeStack *scopes, ASTNode *stmt, int in
                         emit_literal(list, ";\n");
                     }
                 }
+                env->symbol_count = arm_scope_start;
 
                 emit_indent_item(list, indent + 2);
                 emit_literal(list, "}\n");
@@ -3159,7 +3189,11 @@ static void build_stmt(WorkList *list, ScopeStack *scopes, ASTNode *stmt, int in
                 emit_literal(list, "; ");
                 emit_literal(list, var);
                 emit_literal(list, "++) ");
+                /* The loop variable hides a top-level constant of the same name in the body */
+                int for_scope_start = env->symbol_count;
+                env_define_var_with_type_info(env, var, TYPE_INT, TYPE_UNKNOWN, NULL, false, create_void());
                 build_stmt(list, scopes, stmt->as.for_stmt.body, indent, env, fn_registry);
+                env->symbol_count = for_scope_start;   /* as for parameters: dropped, not freed */
             } else {
                 /* Fallback for non-range for loops */
                 emit_indent_item(list, indent);
